@@ -106,8 +106,18 @@ def build():
         do, "do step: exact lookup, stop if found or DO set, then refuse DNSSEC qtypes")
     m = one(r"alt_key\.addo\s*=\s*AdDo::(\w+)\s*;\s*let\s+opt_value\s*=\s*self\.cache\.get\(\s*&alt_key\s*\)\.await\s*;", do, "do step alternate key")
     defs.append(("alt_do", "N", code(m.group(1))))
-    one(r"update_message\(\s*value\s*,\s*&self\.config\s*,\s*\|_hdr\|\s*true\s*,\s*\|msg\|\s*remove_dnssec\(\s*msg\s*,\s*key\.addo\.ad\(\)\s*\)\s*,?\s*\)\?\s*;\s*self\.cache_insert\(\s*key\.clone\(\)\s*,\s*value\.clone\(\)\s*\)\.await\s*;\s*return\s+Ok\(\s*Some\(\s*value\s*\)\s*\)",
-        do, "do step: remove_dnssec(msg, key.addo.ad()), insert under the query key")
+    m = one(r"let\s+(value|Ok\(value\))\s*=\s*update_message\(\s*value\s*,\s*&self\.config\s*,\s*\|_hdr\|\s*true\s*,\s*\|msg\|\s*remove_dnssec\(\s*msg\s*,\s*key\.addo\.ad\(\)\s*\)\s*,?\s*\)\s*(\?|else\s*\{\s*return\s+Ok\(\s*None\s*\)\s*;\s*\})\s*;\s*self\.cache_insert\(\s*key\.clone\(\)\s*,\s*value\.clone\(\)\s*\)\.await\s*;\s*return\s+Ok\(\s*Some\(\s*value\s*\)\s*\)",
+            do, "do step: remove_dnssec(msg, key.addo.ad()), insert under the query key")
+    if (m.group(1) == "value") != (m.group(2) == "?"):
+        raise GenError("do step: inconsistent error handling around update_message")
+    # what happens when the cached message cannot be rewritten: `?` fails the request, let-else is a miss
+    defs.append(("strip_failure_is_miss", "bool", "false" if m.group(2) == "?" else "true"))
+    # the other two rewrites (header edits) propagate with `?`
+    # remove_dnssec converts every record before the is_dnssec test
+    rmb = fn_body(src, "remove_dnssec")
+    if len(re.findall(r"\.into_record::<AllRecordData<_,\s*ParsedName<_>>>\(\)\?\s*\.expect\(\s*\"record expected\"\s*\)\s*;\s*if\s+is_dnssec\(", rmb)) != 3:
+        raise GenError("remove_dnssec: expected into_record()? before the is_dnssec test in three sections")
+    defs.append(("strip_parses_all_records", "bool", "true"))
     ad = fn_body(src, "cache_lookup_ad")
     one(r"let\s+opt_value\s*=\s*self\.cache\.get\(\s*key\s*\)\.await\s*;\s*if\s+opt_value\.is_some\(\)\s*\|\|\s*key\.addo\.ad\(\)\s*\{\s*return\s+Ok\(\s*opt_value\s*\)\s*;\s*\}",
         ad, "ad step: exact lookup, stop if found or AD/DO set")
@@ -163,6 +173,14 @@ def build():
         raise GenError("decrement_ttl: expected three `rr.ttl() - amount`, found %d" % len(subs))
     one(r"if\s+rr\.rtype\(\)\s*!=\s*Rtype::OPT\s*\{\s*rr\.set_ttl\(", de, "decrement_ttl: OPT excluded in additional")
     one(r"\*target\.header_mut\(\)\s*=\s*source\.header\(\)\s*;", de, "decrement_ttl copies the header")
+    if len(re.findall(r"\.into_record::<AllRecordData<_,\s*ParsedName<_>>>\(\)\?", de)) != 3:
+        raise GenError("decrement_ttl: expected into_record::<AllRecordData>()? in three sections")
+    defs.append(("decrement_parses_all_records", "bool", "true"))
+    one(r"let\s+opt_ce\s*=\s*self\.cache_lookup\(\s*&key\s*\)\.await\?\s*;", gi, "a lookup error fails the request")
+    one(r"Arc::new\(\s*Value::new\(\s*response\.clone\(\)\s*,\s*&self\.config\s*,\s*\)\?\s*\)\s*;\s*self\.cache_insert\(\s*key\s*,\s*value\s*\)\.await\s*;\s*return\s+response\s*;", gi,
+        "forwarded: Value::new(..)? then insert then pass the response through")
+    one(r"if\s+let\s+Some\(response\)\s*=\s*opt_response\s*\{\s*return\s+response\s*;\s*\}", gi, "served: whatever get_response produced (incl. an error) is returned")
+    defs.append(("lookup_error_fails_request", "bool", "true"))
     ttlsrc = strip_comments(read("src/base/record.rs"))
     sb = fn_body(ttlsrc, "sub", after="impl core::ops::Sub for Ttl")
     one(r"self\.checked_sub\(\s*rhs\s*\)\s*\.expect\(", sb, "Ttl - Ttl panics on underflow")
